@@ -218,7 +218,7 @@ Proof. induction l as [|a l IH]; cbn; [reflexivity|]. destruct (p (f a)); cbn; r
 Lemma agg_ind_subs (P : agg -> Prop) (H : forall a, Forall P (subs_of a) -> P a) : forall a, P a.
 Proof.
   fix IH 1. intros a. apply H.
-  destruct a as [f size mdc missing subs|f rs missing subs|f i o mdc b missing subs|flt subs|k f missing|kw f];
+  destruct a as [f size mdc missing subs|f maxc size subs|f rs missing subs|f i o mdc b missing subs|flt subs|k f missing|kw f];
     cbn [subs_of]; try constructor.
   all: revert subs; fix IHl 1; intros [|s subs]; constructor; [apply IH|apply IHl].
 Qed.
@@ -311,7 +311,7 @@ Proof.
       cbn [app nlen length N.of_nat]. reflexivity.
     + exfalso. rewrite <- all_keys_app in Hk. apply zset_In, in_app_or in Hk.
       apply zmem_false in E1, E2. tauto.
-  - destruct a as [| | | |k f missing|kw f]; try discriminate; cbn [summ merge].
+  - destruct a as [| | | | |k f missing|kw f]; try discriminate; cbn [summ merge].
     + destruct k; cbn [merge]; rewrite flat_map_app.
       * rewrite nlen_app, zsum_app, zsumsq_app, zminl_app, zmaxl_app. reflexivity.
       * rewrite nlen_app, zsum_app, zsumsq_app, zminl_app, zmaxl_app. reflexivity.
@@ -358,7 +358,7 @@ Proof.
     apply map_ext. intros k. f_equal. unfold children.
     destruct (is_hist a && _); [apply zip_finalize_nil|].
     apply zip_finalize_map. rewrite Forall_forall in *. intros s Hs. apply (IHsubs s Hs).
-  - destruct a as [| | | |k f missing|kw f]; try discriminate; cbn [summ finalize spec].
+  - destruct a as [| | | | |k f missing|kw f]; try discriminate; cbn [summ finalize spec].
     + destruct k; reflexivity.
     + reflexivity.
 Qed.
@@ -390,7 +390,7 @@ Proof.
         apply Permutation_sym, Permutation_nil in HF. discriminate. }
     rewrite Hnil. destruct (is_hist a && _); [reflexivity|].
     apply map_ext_in. intros s Hs. rewrite Forall_forall in IHsubs. apply (IHsubs s Hs). exact HF.
-  - destruct a as [| | | |k f missing|kw f]; try discriminate; cbn [summ].
+  - destruct a as [| | | | |k f missing|kw f]; try discriminate; cbn [summ].
     + pose proof (Permutation_flat_map' (mvals f missing) _ _ HP) as HF.
       destruct k.
       * rewrite (nlen_perm _ _ HF), (zsum_perm _ _ HF), (zsumsq_perm _ _ HF), (zminl_perm _ _ HF), (zmaxl_perm _ _ HF). reflexivity.
